@@ -18,6 +18,7 @@ def _mods():
 # ---------------------------------------------------------------- bodies
 
 N = ['noop']
+USES = [0, 1, 2, 4, 5, 6, 7, 8]
 NCLS = len(P.CLASSES)
 
 def leaves(i=0):
@@ -194,8 +195,10 @@ def gen_cases(rng, tier):
         yield {'op': 'sare', 'mode': rng.choice(['with', 'with', 'with', 'direct', 'noactive']), 'r0': rng.randrange(2),
                'oc': rng.randrange(NCLS), 'ok': rng.randrange(3), 'body': lab(rand_body(rng, d, rich=(i % 2 == 0)), rng.randrange(1000))}
     # exception_filter as a context manager: plain instance / decorator-made / bound method
+    # uses: 0 plain / 1 decorator-made / 2 bound method / 4 filter of a filter / 5 stacked decorators / 6 bound method of a
+    # doubly decorated method / 7 filter of a filter of a callable instance (K14) / 8 filter of a callable instance
     for p in range(len(P.PREDS)):
-        for use in range(3):
+        for use in USES:
             yield {'op': 'filter', 'p': p, 'use': use, 'body': ['noop']}
             for c in range(NCLS):
                 for k in range(3):
@@ -211,19 +214,19 @@ def gen_cases(rng, tier):
         yield {'op': 'filter', 'p': rng.randrange(len(P.PREDS)), 'use': 3, 'p2': rng.randrange(len(P.PREDS)),
                'body': lab(rand_body(rng, rng.randint(2, 4), ctxfree=True), rng.randrange(1000))}
     for i in range(1500 if quick else 40000):
-        yield {'op': 'filter', 'p': rng.randrange(len(P.PREDS)), 'use': rng.randrange(3),
+        yield {'op': 'filter', 'p': rng.randrange(len(P.PREDS)), 'use': rng.choice(USES),
                'body': lab(rand_body(rng, rng.randint(2, 4), ctxfree=True), rng.randrange(1000))}
     # direct call
     for p in range(len(P.PREDS)):
-        for use in range(3):
+        for use in USES:
             for a in range(4):
                 for active in (0, 1):
-                    for oc in range(NCLS):
+                    for oc in range(NCLS if use < 3 else 3):
                         yield {'op': 'call', 'p': p, 'use': use, 'a': a, 'active': active, 'oc': oc, 'ok': (p + use + a + oc) % 3}
     # direct call with a STORED exception (raised and caught earlier: it has a traceback) that is not the one being
     # handled: (i) no active exception, (ii) inside an unrelated except block; (iii) = a == 0 above
     for p in range(len(P.PREDS)):
-        for use in range(4):
+        for use in [0, 1, 2, 3, 4, 5, 6, 7, 8]:
             for active in (0, 1):
                 for sc in range(NCLS):
                     yield {'op': 'call', 'p': p, 'use': use, 'p2': (p + 1 + sc) % len(P.PREDS), 'a': 4, 'active': active,
@@ -287,6 +290,8 @@ def oracle(c, io):
                 want = 1 if f['flag'] else 0
                 if nlog != want: return 'body raised with reraise %s: %d log calls, expected %d' % (f['flag'], nlog, want)
                 if want and not all(f['log2_names_entry'][:1]): return 'the log entry does not show the original exception'
+            if post and c['post'] == 2 and not f['captured']:
+                return 'capture() with an exception active did not save it but raised (%s)' % io.split(' ')[0]
             if post:
                 # the saved exception must still be the one force_reraise() raises afterwards
                 if not f['out_is_entry']:
@@ -299,6 +304,7 @@ def oracle(c, io):
             if not f['completed'] and f['flag'] is not None:
                 if not f['out_is_body_exc']: return 'the body raised, but what came out is not the exception the body raised'
         else:
+            if not f['captured']: return 'capture() with an exception active did not save it but raised (%s)' % io.split(' ')[0]
             if f['completed']:
                 if not f['out_is_entry']: return 'capture(); ...; force_reraise() did not raise the captured exception (%s)' % io.split(' ')[0]
                 if not f['entry_tb_kept']: return 'force_reraise() lost the traceback of the original raise'
@@ -351,6 +357,9 @@ def zone(c):
     """K13: force_reraise()/capture() called on the context inside its own block, or force_reraise() invoked a
     second time on a context whose __exit__ already re-raised (decided by running the program: the with statement
     re-raises exactly when the block completes with the flag on)"""
+    # K14: a filter wrapped around a filter whose innermost predicate is a callable without the functools wrapper
+    # attributes (use 7)
+    if c['op'] in ('filter', 'call') and c.get('use') == 7: return 'K14'
     if c['op'] == 'sare' and has_direct0(c['body']): return 'K13'
     if c['op'] == 'sare' and c['mode'] == 'post' and c['post'] == 1:
         f = json.loads(impl(c).split(' #', 1)[1])
